@@ -232,6 +232,24 @@ func exec(line string) string {
 				return errStr(err)
 			}
 			return "ok " + vx.Hex(s) + " " + vx.Hex(e)
+		case w[0] == "buckets":
+			a, ok := hexes(w[3:])
+			if !ok {
+				return "bad-op"
+			}
+			in := make([][]byte, len(a))
+			for i := range a {
+				in[i] = cp(a[i])
+			}
+			out, err := c.DecodeBucketKeys(in)
+			if err != nil {
+				return errStr(err)
+			}
+			s := "ok " + strconv.Itoa(len(out))
+			for _, k := range out {
+				s += " " + vx.Hex(k)
+			}
+			return s
 		case (w[0] == "regerr" || w[0] == "regclip") && len(w)%2 == 1:
 			// the EpochNotMatch region list of a region error, through the public DecodeResponse of a Get
 			a, ok := hexes(w[3:])
@@ -679,6 +697,23 @@ func main() {
 				}
 				toks = append(toks, H(es), H(ee))
 			}
+			// bucket keys of a region: sorted-ish boundary strings in region wire form, first/last possibly outside
+			var bks []string
+			for i, cnt := 0, r.Intn(6); i < cnt; i++ {
+				b := boundaryEncoded(r, m, id, r.Bool())
+				if r.Chance(40) {
+					b = append(pfxOf(m, id), randKey(r)...)
+				}
+				eb := []byte{}
+				if len(b) > 0 {
+					eb = vxEncodeBytes(b)
+				}
+				if r.Chance(4) && len(eb) > 0 {
+					eb = eb[:len(eb)-1]
+				}
+				bks = append(bks, H(eb))
+			}
+			do(strings.TrimSpace("buckets " + K + " " + strings.Join(bks, " ")))
 			do("regerr " + K + " " + strings.Join(toks, " "))
 			do("regclip " + K + " " + strings.Join(toks, " "))
 		case 7:
